@@ -1,4 +1,155 @@
+#![allow(dead_code)]
+//! h1x — real HTTP/1 connection under a scripted socket, scripted handlers/bodies and virtual time.
+//! Serves C01–C06 (DESIGN.md §3, Appendix A).
+
+mod analysis;
+mod c02;
+mod driver;
+mod respparse;
+mod scenario;
+
+use analysis::Analysis;
+use mc_core::explore::{self, Cfg, Outcome};
+use mc_core::report::{Evidence, Reporter};
+use mc_core::{Chooser, Violation};
+use serde_json::json;
+use std::time::{Duration, Instant};
+
+pub fn viol(property: &str, clause: &str, signature: &str, what: String) -> Violation {
+    Violation {
+        property: property.into(),
+        clause: clause.into(),
+        signature: signature.into(),
+        what,
+        replay: serde_json::Value::Null,
+        weight: 0,
+    }
+}
+
+struct Job {
+    prop: String,
+    sc: scenario::Scenario,
+}
+
+impl explore::Scenario for Job {
+    fn name(&self) -> String {
+        self.sc.name.clone()
+    }
+    fn describe(&self) -> serde_json::Value {
+        let st = self.sc.stream();
+        json!({
+            "config": self.sc.config,
+            "request_stream": mc_core::show_short(&st.bytes, 400),
+            "programs": self.sc.programs,
+            "fin": self.sc.fin,
+        })
+    }
+    fn run(&self, ch: &mut Chooser) -> Outcome {
+        let ex = driver::run(&self.sc, ch);
+        let a = Analysis::new(&self.sc, &ex);
+        let mut violations = match self.prop.as_str() {
+            "C02" => c02::check(&self.sc, &ex, &a),
+            _ => vec![],
+        };
+        if ex.horizon_hit {
+            violations.push(viol(&self.prop, "horizon", "step-horizon", format!("execution did not end within {} driver steps", driver::MAX_STEPS)));
+        }
+        let nontrivial = match self.prop.as_str() {
+            "C02" => c02::nontrivial(&ex, &a),
+            _ => false,
+        };
+        let sample = if ch.prefix_len() == 0 {
+            Some(json!({
+                "scenario": self.sc.name,
+                "request_stream": mc_core::show_short(&a.stream.bytes, 200),
+                "response_stream": mc_core::show_short(&a.out_masked, 300),
+                "dispatched": a.dispatched.iter().map(|d| format!("{} {} h{}", d.method, d.target, d.handler)).collect::<Vec<_>>(),
+                "choice_points": ch.trace.len(),
+            }))
+        } else {
+            None
+        };
+        Outcome { violations, class: analysis::class_of(&ex, &a), nontrivial, sample }
+    }
+}
+
+fn print_replay(job: &Job, picks_json: &serde_json::Value) -> i32 {
+    let (o, trace) = explore::replay(std::slice::from_ref(job), picks_json);
+    println!("scenario {}", job.sc.name);
+    println!("choices:");
+    for (i, p) in trace.iter().enumerate() {
+        if p.pick != 0 {
+            println!("  #{i} {} -> option {} of {}", p.kind, p.pick, p.n);
+        }
+    }
+    // re-run to print the observation
+    let mut ch = Chooser::new(trace.iter().map(|p| p.pick).collect());
+    let ex = driver::run(&job.sc, &mut ch);
+    let a = Analysis::new(&job.sc, &ex);
+    println!("request stream : {}", mc_core::show(&a.stream.bytes));
+    println!("response stream: {}", mc_core::show(&a.out_masked));
+    println!("connection result: {:?}, shutdown_done={}, dropped={}", ex.done, ex.io.shutdown_done, ex.io.dropped);
+    println!("log:");
+    for e in &ex.log {
+        println!("  {:?}", e);
+    }
+    if o.violations.is_empty() {
+        println!("no violation on this case");
+        0
+    } else {
+        for v in &o.violations {
+            println!("VIOLATION property={} clause={} signature={}\n  {}", v.property, v.clause, v.signature, v.what);
+        }
+        1
+    }
+}
+
 fn main() {
-    eprintln!("MACHINERY: engine h1x is not built yet");
-    std::process::exit(2);
+    let args = mc_core::cli::parse();
+    let prop = args.property.clone();
+    let tier = args.tier.clone();
+    let start = Instant::now();
+    let (scenarios, bounds, level, rule, assumptions): (Vec<scenario::Scenario>, Vec<u32>, &str, &str, Vec<&str>) = match prop.as_str() {
+        "C02" => {
+            let s = c02::scenarios(&tier);
+            let b = s.iter().map(|x| c02::bound(x, &tier)).collect();
+            (s, b, "exploration",
+             "scenario = config x pipelined request mix x handler programs; every execution with <= d non-default environment answers (read cut/Pending, partial write, flush Pending, event order) is run on the real h1::Dispatcher; classes are distinct canonical observations (masked response bytes + dispatch/body log); non-trivial = a pipelined request was dispatched before the previous response was fully written, or the response was written in more than one socket write",
+             vec!["Date header values are masked", "tokio LocalSet/timer internals are executed, not explored", "reference client parser implements RFC 7230 section 3.3.3"])
+        }
+        other => {
+            eprintln!("MACHINERY: h1x does not serve {other}");
+            std::process::exit(2);
+        }
+    };
+    let jobs: Vec<Job> = scenarios.into_iter().map(|sc| Job { prop: prop.clone(), sc }).collect();
+    if let Some(path) = &args.replay {
+        let v = mc_core::report::read_replay(path);
+        let name = v["replay"]["scenario"].as_str().unwrap_or("").to_string();
+        let Some(job) = jobs.iter().find(|j| j.sc.name == name) else {
+            eprintln!("MACHINERY: scenario {name} not in the scenario list of {prop}");
+            std::process::exit(2);
+        };
+        std::process::exit(print_replay(job, &v["replay"]));
+    }
+    let wall = args.wall_s.unwrap_or(if tier == "quick" { 55 } else { 1500 });
+    let cfg = Cfg { wall: Duration::from_secs(wall), threads: mc_core::cli::threads(), max_unknown: 12 };
+    let mut rep = Reporter::new(&prop);
+    let stats = explore::explore(&prop, &jobs, &bounds, &cfg, &mut rep);
+    let mut ev = Evidence::new(&prop, &tier, level);
+    stats.fill(&mut ev, rule);
+    for a in assumptions {
+        ev.assume(a);
+    }
+    ev.set("findings", serde_json::Value::Array(rep.summaries()));
+    ev.set("violating_executions", stats.violating_executions);
+    ev.wall_s = start.elapsed().as_secs_f64();
+    ev.violations = rep.unknown_count() as i64;
+    ev.write();
+    eprintln!(
+        "{prop} {tier}: {} scenarios, {} executions checked ({} run), bound completed {} of {}, capped={}, {} classes ({} non-trivial), {:.1}s",
+        stats.scenarios, stats.checked, stats.executions, stats.bound_completed, stats.max_bound_requested, stats.capped,
+        stats.classes.len(), stats.nontrivial_classes.len(), ev.wall_s
+    );
+    std::process::exit(rep.finish());
 }
